@@ -189,16 +189,14 @@ def check(col: Collector, tier: str):
     chain_ok = "get_template(template_file).stream(info).dump" in src(cp.node).replace("\n", "").replace(" ", "")
     col.add("C14.R3", "executor._copy_template_file", "renders-with-info", chain_ok,
             "the file must be rendered from get_template(template_file).stream(info)", cp.loc)
-    # _ib_fetch concatenates in order
+    # _ib_fetch concatenates in order: however it is spelled, it returns getattr(block, <its parameter>) of every block, chained in list order
     ib = repo.method("executor", "_ib_fetch", hint="common.executor")
-    s_ib = src(ib.node)
-    uses_chain = any(isinstance(c, ast.Call) and call_name(c) == "chain" for c in ast.walk(ib.node)) or \
-        any(isinstance(c, ast.Call) and call_name(c) == "from_iterable" for c in ast.walk(ib.node))
-    reorder = any(isinstance(c, ast.Call) and call_name(c) in ("set", "sorted", "reversed", "frozenset", "dict", "fromkeys", "unique")
-                  for c in ast.walk(ib.node))
-    iter_all = any(isinstance(g, ast.comprehension) and src(g.iter) == "self._inject_blocks" and not g.ifs for g in ast.walk(ib.node))
-    # ... or the same flattening written as one comprehension: [x for md in self._inject_blocks for x in getattr(md, name)]
-    flat_comp = _flattening_comprehension(ib.node)
+    from sa.props._tr import flat_concat, selected_by_type
+    fc = flat_concat(ib.node)
+    prm_ib = ib.node.args.args[1].arg if len(ib.node.args.args) > 1 else "?"
+    ordered_ok = fc is not None and fc[0] == "self._inject_blocks" and src(fc[1]) == f"getattr({fc[2]}, {prm_ib})"
+    uses_chain = flat_comp = iter_all = ordered_ok
+    reorder = False
     col.add("C14.R3", "executor._ib_fetch", "ordered-concatenation", (uses_chain or flat_comp) and not reorder and iter_all,
             "fields must be concatenated in order (itertools.chain, or one comprehension flattening each block's value) over every block of "
             "self._inject_blocks, no set/sorted/reversed", ib.loc)
@@ -217,14 +215,10 @@ def check(col: Collector, tier: str):
     assigned = [st for st in walk_no_nested(aat.node) if isinstance(st, ast.Assign) and src(st.targets[0]) == "self._inject_blocks"]
     appended = [c for c in walk_no_nested(aat.node) if isinstance(c, ast.Call) and call_name(c) in ("append", "extend", "insert")
                 and src(c.func.value) == "self._inject_blocks"]
-    ok_assign = len(assigned) == 1 and not appended
-    if ok_assign:
-        v = assigned[0].value
-        pmv = [n.targets[0].id for n in walk_no_nested(aat.node) if isinstance(n, ast.Assign) and isinstance(n.value, ast.Call)
-               and call_name(n.value) == "process_metadata" and isinstance(n.targets[0], ast.Name)]
-        ok_assign = isinstance(v, ast.ListComp) and len(v.generators) == 1 and src(v.elt) == v.generators[0].target.id \
-            and len(v.generators[0].ifs) == 1 and "isinstance" in src(v.generators[0].ifs[0]) and "InjectCodeBlock" in src(v.generators[0].ifs[0]) \
-            and len(pmv) == 1 and src(v.generators[0].iter) == pmv[0]
+    pmv = [n.targets[0].id for n in walk_no_nested(aat.node) if isinstance(n, ast.Assign) and isinstance(n.value, ast.Call)
+           and call_name(n.value) == "process_metadata" and isinstance(n.targets[0], ast.Name)]
+    sel = selected_by_type(aat.node, "self._inject_blocks", "InjectCodeBlock")
+    ok_assign = len(assigned) == 1 and not appended and len(pmv) == 1 and sel == pmv[0]
     if not ok_assign and not assigned and len(appended) == 1:
         # equivalent form: appended item by item in metadata order, starting from the list that reset() emptied (the pending-
         # translation protocol checked by C07 guarantees reset ran since the previous query)
@@ -291,11 +285,51 @@ def check_r4(col: Collector, repo: Repo):
     col.add("C14.R4", "process_metadata.inject_code", "unknown-field-is-ValueError", conv,
             "InjectCodeBlock(**info) must be built from all keys and its TypeError (unknown field) turned into ValueError", pm.loc)
     # the 'metadata_type' key is removed, nothing else
-    dels = [src(d) for d in ast.walk(body) if isinstance(d, ast.Delete)]
-    pops = [src(c) for c in ast.walk(body) if isinstance(c, ast.Call) and call_name(c) == "pop"]
-    col.add("C14.R4", "process_metadata.inject_code", "only-metadata_type-removed",
-            dels == ["del info['metadata_type']"] and not pops,
-            f"keys removed before construction: {dels + pops}; only metadata_type may be dropped (a dropped key is silently ignored input)", pm.loc)
+    # stated on the dict that is unpacked into InjectCodeBlock(**X): X is md without exactly the key 'metadata_type' - a copy of md with that key
+    # deleted / popped, or a comprehension over md.items() that leaves out that key and nothing else
+    ctor = [c for c in ast.walk(body) if isinstance(c, ast.Call) and call_name(c) == "InjectCodeBlock" and any(k.arg is None for k in c.keywords)]
+    removed_ok = False
+    removed = "?"
+    if len(ctor) == 1:
+        x = next(k.value for k in ctor[0].keywords if k.arg is None)
+        xs = src(x)
+        dels = [src(d.targets[0]) for d in ast.walk(body) if isinstance(d, ast.Delete) and len(d.targets) == 1]
+        pops = [c for c in ast.walk(body) if isinstance(c, ast.Call) and call_name(c) == "pop" and src(c.func.value) == xs]
+        defs = [st.value for st in ast.walk(body) if isinstance(st, ast.Assign) and len(st.targets) == 1 and src(st.targets[0]) == xs]
+        removed = dels + [src(c) for c in pops]
+        if len(defs) == 1 and isinstance(x, ast.Name):
+            d = defs[0]
+            copy_of_md = (isinstance(d, ast.Call) and call_name(d) in ("dict", "copy") and (src(d.args[0]) if d.args else src(d.func.value)) == "md") \
+                or (isinstance(d, ast.Dict) and d.keys == [None] and src(d.values[0]) == "md")
+            if copy_of_md:
+                one_del = dels == [f"{xs}['metadata_type']"] and not pops
+                one_pop = not dels and len(pops) == 1 and pops[0].args and const_str(pops[0].args[0]) == "metadata_type"
+                removed_ok = one_del or one_pop
+            elif isinstance(d, ast.DictComp) and len(d.generators) == 1 and src(d.generators[0].iter) == "md.items()" and len(d.generators[0].ifs) == 1 \
+                    and isinstance(d.generators[0].target, ast.Tuple) and len(d.generators[0].target.elts) == 2 \
+                    and src(d.key) == src(d.generators[0].target.elts[0]) and src(d.value) == src(d.generators[0].target.elts[1]) and not dels and not pops:
+                t_ = d.generators[0].ifs[0]
+                kname = src(d.generators[0].target.elts[0])
+                removed = [src(t_)]
+                removed_ok = isinstance(t_, ast.Compare) and len(t_.ops) == 1 and src(t_.left) == kname and (
+                    (isinstance(t_.ops[0], ast.NotEq) and const_str(t_.comparators[0]) == "metadata_type") or
+                    (isinstance(t_.ops[0], ast.NotIn) and isinstance(t_.comparators[0], (ast.Tuple, ast.List, ast.Set))
+                     and [const_str(e) for e in t_.comparators[0].elts] == ["metadata_type"]))
+    # ... and the block is built whenever at least one field is given: the only length condition on the field dict is "not empty"
+    if len(ctor) == 1 and isinstance(x, ast.Name):
+        from sa.core.paths import guards as _g2, parent_map as _pm2, len_values, len_aliases, _LEN_ALL, _LEN_TOP
+        vs = _LEN_ALL
+        for t_, tr_ in _g2(pm.node, ctor[0], _pm2(pm.node)):
+            if isinstance(t_, (ast.For, ast.While)):
+                continue
+            r_ = len_values(t_, xs, tr_, len_aliases(pm.node))
+            if r_ is not None:
+                vs = vs & r_
+        col.add("C14.R4", "process_metadata.inject_code", "built-whenever-a-field-is-given", vs >= frozenset(range(1, _LEN_TOP + 1)),
+                f"the block must be constructed for every non-empty set of fields; the conditions on the way admit only sizes {sorted(vs)[:4]}.. "
+                "(a block with a single field - its name - still competes with other blocks of that name)", pm.loc)
+    col.add("C14.R4", "process_metadata.inject_code", "only-metadata_type-removed", removed_ok,
+            f"keys removed before construction: {removed}; only metadata_type may be dropped (a dropped key is silently ignored input)", pm.loc)
     # ok_to_add_code_block: loop over all, same-name test, equality -> False, inequality -> raise, else True
     n = ok_fn.node
     s = src(n)
@@ -357,8 +391,9 @@ def check_ib_fetch_verbatim(col: Collector, rule: str, repo: Repo):
     """The field values are chained as they are: no per-value wrapper that treats lists, tuples or strings differently
     (a tuple-valued field - what a Python AST carries where qastle text carries a list - must expand like a list)."""
     ib = repo.method("executor", "_ib_fetch", hint="common.executor")
-    comps = [n for n in ast.walk(ib.node) if isinstance(n, (ast.ListComp, ast.GeneratorExp)) and any(src(g.iter) == "self._inject_blocks" for g in n.generators)]
-    ok = len(comps) == 1 and ((isinstance(comps[0].elt, ast.Call) and call_name(comps[0].elt) == "getattr") or _flattening_comprehension(ib.node))
+    from sa.props._tr import flat_concat
+    fc = flat_concat(ib.node)
+    ok = fc is not None and fc[0] == "self._inject_blocks" and isinstance(fc[1], ast.Call) and call_name(fc[1]) == "getattr" and src(fc[1].args[0]) == fc[2]
     typed = [src(c) for c in ast.walk(ib.node) if isinstance(c, ast.Call) and call_name(c) in ("isinstance", "type")]
     col.add(rule, "executor._ib_fetch", "field-values-chained-as-they-are", ok and not typed,
             f"each block's field value must be chained directly (getattr(md, name)); type-dependent wrapping {typed} makes a tuple-valued field "
